@@ -266,10 +266,12 @@ def run_program(job):
 def _skip_run(entry, cfg, p, abi, plan, stats):
     stats["skip_compiles"] += 1
     try:
-        out = H.compile_with(entry["src"], cfg, H.State(skip=[p]), formats=("bytecode", "layout"))
+        out = H.compile_with(entry["src"], cfg, H.State(skip=[p]), formats=("bytecode", "layout"), limit=stats.get("skip_limit", 8))
         return observe(entry, out, abi, plan)
     except BaseException as e:  # noqa  (a skipped essential pass makes the compiler panic/assert: expected)
         if isinstance(e, (KeyboardInterrupt, SystemExit)):
             raise
         stats["skip_failed"] += 1
+        if isinstance(e, H.CompileTimeout):
+            stats["skip_timeout"] = stats.get("skip_timeout", 0) + 1
         return None
